@@ -4,6 +4,8 @@ CONSTANTS
   Modes <- ModesAll
   KW = 2
   KR = 2
+  WPats <- NoPats
+  RPats <- NoPats
   Chunk = 4096
   SendMech = "asbuilt"
   RecvMech = "repaired"
